@@ -7,6 +7,7 @@ import (
 	"hash/fnv"
 	"math/rand"
 	"strings"
+	"sync/atomic"
 
 	"verif/harness/vt"
 )
@@ -367,7 +368,7 @@ func randomCfg(rng *rand.Rand, format string) Cfg {
 // layout changes and after damage.
 func Random(w *vt.W, rng *rand.Rand, n int, big bool) {
 	formats := []string{"fasta", "fastq", "bed", "gff"}
-	for id := 0; id < n; id++ {
+	for id := 0; id < n && atomic.LoadInt32(&Hangs) < MaxHangs; id++ {
 		format := formats[id%4]
 		cfg := randomCfg(rng, format)
 		var recs []Rec
